@@ -105,31 +105,53 @@ def r05_3(rep, M, rid):
     fn = M.func(GS)
     fl = Flow(fn)
     env = {}
+    cnt = {}
     for s in ast.walk(fn):
         if isinstance(s, ast.Assign) and isinstance(s.targets[0], ast.Name):
             env.setdefault(s.targets[0].id, s.value)
-    # the product
-    prods = [s for s in ast.walk(fn) if isinstance(s, ast.Assign) and isinstance(s.targets[0], ast.Name) and (
-        (isinstance(s.value, ast.Call) and SR.resolver(M, GS)(s.value.func) in ("numpy.dot", "numpy.matmul"))
-        or (isinstance(s.value, ast.BinOp) and isinstance(s.value.op, ast.MatMult))
-        or (isinstance(s.value, ast.Attribute) and s.value.attr == "T"))]
-    prods = [s for s in prods if "transformation" in " ".join(norm(env.get(x.id, ast.Constant(None))) for x in ast.walk(s.value) if isinstance(x, ast.Name))]
-    if len(prods) != 1:
-        raise AnalysisError(f"_find_wyckoff_ground_state: expected one application of the transformation matrix, found {len(prods)}")
-    prod = prods[0]
-    f = linalg.nf(prod.value, SR.resolver(M, GS), {})
-    names = [x for x in f] if f else []
-    tname = next((n for n, i, t in names if "transformation" in norm(env.get(n, ast.Constant(None)))), None)
-    xname = next((n for n, i, t in names if n != tname), None)
-    want = [(xname, False, False), (tname, False, True)]
-    if f == want:
-        rep.ok(rid, f"transformed positions = {linalg.show(f)} (row vectors times the transposed 4x4)")
-    else:
-        rep.violation(rid, "application of the normalizer", f"computes {linalg.show(f)}; the tables hold column-convention 4x4 matrices "
-                      f"(x' = T x), so row-vector positions need {linalg.show(want)}: with the transpose missing the translation column is "
-                      "ignored and the rotation is inverted", M.where(GS, prod))
-    # homogeneous coordinates
-    if xname:
+            cnt[s.targets[0].id] = cnt.get(s.targets[0].id, 0) + 1
+    single = {k: v for k, v in env.items() if cnt[k] == 1}
+    sysparam = M.params(GS)[2]
+    wraps = [c for c in ast.walk(fn) if isinstance(c, ast.Call) and "matid.geometry.geometry.get_wrapped_positions" in M.callees_of_call(GS, c)]
+    if not wraps:
+        rep.violation(rid, "post-processing of transformed positions", "the transformed positions are not wrapped into [0, 1)", M.where(GS))
+        return
+    E = wraps[0].args[0]
+    # follow plain names / column selections back to the expression that applies the matrix
+    cols = False
+    cur = E
+    at_cur = fl.node_of(wraps[0])
+    for _ in range(8):
+        if isinstance(cur, ast.Name):
+            defs = [d for d in fl.rd[at_cur].get(cur.id, ()) if d != fl.cfg.entry]
+            vals = [(d, v) for d in defs for k, v, *_ in [tuple(x) + (None,) for x in fl.def_value(d, cur.id)] if k == "expr"]
+            if len(vals) != 1:
+                break
+            at_cur, cur = vals[0]
+        elif isinstance(cur, ast.Subscript) and slice_text(cur).replace(" ", "") in (":,0:3", ":,:3"):
+            cols = True
+            cur = cur.value
+        else:
+            break
+    res = SR.resolver(M, GS)
+    # names that hold the scaled positions of the standardised system
+    posnames = {k for k, v in single.items() if isinstance(v, ast.Call) and isinstance(v.func, ast.Attribute) and v.func.attr == "get_scaled_positions"
+                and norm(v.func.value) == sysparam}
+    tmat = next((k for k, v in single.items() if isinstance(v, ast.Subscript) and isinstance(v.slice, ast.Constant) and v.slice.value == "transformation"), None)
+    if tmat is None:
+        raise AnalysisError("_find_wyckoff_ground_state: the chosen transformation matrix is not bound to a name")
+    f = linalg.nf(cur, res, {})
+    names = [x[0] for x in f] if f else []
+    if f and len(f) == 2 and tmat in names and not posnames & set(names):
+        # homogeneous form
+        xname = next(n for n in names if n != tmat)
+        want = [(xname, False, False), (tmat, False, True)]
+        if f == want:
+            rep.ok(rid, f"transformed positions = {linalg.show(f)} (homogeneous row vectors times the transposed 4x4)")
+        else:
+            rep.violation(rid, "application of the normalizer", f"computes {linalg.show(f)}; the tables hold column-convention 4x4 matrices "
+                          f"(x' = T x), so row-vector positions need {linalg.show(want)}: with the transpose missing the translation column is "
+                          "ignored and the rotation is inverted", M.where(GS, cur))
         st = [s for s in ast.walk(fn) if isinstance(s, ast.Assign) and isinstance(s.targets[0], ast.Subscript) and norm(s.targets[0].value) == xname]
         ones = [s for s in st if isinstance(s.value, ast.Constant) and s.value.value == 1 and slice_text(s.targets[0]).replace(" ", "") == ":,3"]
         pos = [s for s in st if any(isinstance(c, ast.Call) and isinstance(c.func, ast.Attribute) and c.func.attr == "get_scaled_positions" for c in ast.walk(s.value))
@@ -137,26 +159,53 @@ def r05_3(rep, M, rid):
         if ones and pos:
             rep.ok(rid, f"{xname} = [scaled positions | 1] (homogeneous row vectors)")
         else:
-            rep.violation(rid, "homogeneous coordinates", f"`{xname}` is not filled as [scaled positions, 1]: {[norm(s)[:50] for s in st]}", M.where(GS, prod))
+            rep.violation(rid, "homogeneous coordinates", f"`{xname}` is not filled as [scaled positions, 1]: {[norm(s)[:50] for s in st]}", M.where(GS, cur))
         if pos and norm(next(c for c in ast.walk(pos[0].value) if isinstance(c, ast.Call) and isinstance(c.func, ast.Attribute)
-                             and c.func.attr == "get_scaled_positions").func.value) == M.params(GS)[2]:
+                             and c.func.attr == "get_scaled_positions").func.value) == sysparam:
             rep.ok(rid, "positions are those of the spglib-standardised system")
         else:
             rep.violation(rid, "homogeneous coordinates source", "positions are not the scaled positions of the standardised system", M.where(GS))
-    # first three columns kept, wrapped, set on a copy
+        if cols:
+            rep.ok(rid, "the first three columns of the homogeneous result are kept")
+        else:
+            rep.violation(rid, "homogeneous coordinates result", "the fourth (homogeneous) column is not dropped", M.where(GS, E))
+    else:
+        # block form: X . R^T + t with R = T[:3, :3], t = T[:3, 3]
+        if len(posnames) != 1:
+            raise AnalysisError("_find_wyckoff_ground_state: application of the transformation not recognised (neither homogeneous nor block form)")
+        xname = next(iter(posnames))
+        env2 = {k: v for k, v in single.items() if k != xname}
+        af = linalg.affine(cur, res, env2, xname)
+        if af is None:
+            raise AnalysisError(f"_find_wyckoff_ground_state: `{norm(cur)[:60]}` is not an affine map of the positions")
+        lin, consts = af
+
+        def is_block(factor, kind):
+            txt = factor[0].replace(" ", "")
+            pats = {"R": (f"{tmat}[0:3,0:3]", f"{tmat}[:3,:3]"), "t": (f"{tmat}[0:3,3]", f"{tmat}[:3,3]")}[kind]
+            return txt in pats
+        ok_lin = lin is not None and len(lin) == 1 and is_block(lin[0], "R") and lin[0][2] and not lin[0][1]
+        ok_const = len(consts) == 1 and len(consts[0]) == 1 and is_block(consts[0][0], "t") and not consts[0][0][1]
+        shown = "X . " + linalg.show(lin) + " + " + " + ".join(linalg.show(c) for c in consts) if lin is not None else "?"
+        if ok_lin and ok_const:
+            rep.ok(rid, f"transformed positions = {shown} (row vectors: rotation block transposed, translation added once, unrotated)")
+            rep.ok(rid, "positions are those of the spglib-standardised system")
+            rep.ok(rid, "block form: no homogeneous column to drop")
+        else:
+            rep.violation(rid, "application of the normalizer", f"computes {shown}; x' = R x + t for row vectors is X . {tmat}[:3,:3]^T + {tmat}[:3,3] "
+                          "(translation added after the rotation, exactly once)", M.where(GS, cur))
     setc = [c for c in ast.walk(fn) if isinstance(c, ast.Call) and isinstance(c.func, ast.Attribute) and c.func.attr == "set_scaled_positions"]
     if not setc:
-        raise AnalysisError("_find_wyckoff_ground_state: set_scaled_positions not found")
+        rep.violation(rid, "target of the transformed positions", "the transformed positions are never set on the returned system "
+                      "(letters are permuted but atoms stay where spglib put them)", M.where(GS))
+        return
     at = fl.node_of(setc[0])
     sl = fl.slice(setc[0].args[0], at)
-    wrapped = any("matid.geometry.geometry.get_wrapped_positions" in M.callees_of_call(GS, c) for e in sl["exprs"] for c in ast.walk(e) if isinstance(c, ast.Call))
-    cols = any(isinstance(x, ast.Subscript) and slice_text(x).replace(" ", "") in (":,0:3", ":,:3") for e in sl["exprs"] for x in ast.walk(e))
-    through = any(s is prod.value or any(x is prod.value for x in ast.walk(s)) for s in sl["exprs"])
-    if wrapped and cols and through:
-        rep.ok(rid, "result[:, 0:3] passes through get_wrapped_positions before set_scaled_positions")
+    wrapped = any(c is wraps[0] for e in sl["exprs"] for c in ast.walk(e))
+    if wrapped:
+        rep.ok(rid, "the wrapped result of the transformation is what set_scaled_positions receives")
     else:
-        rep.violation(rid, "post-processing of transformed positions", f"wrapped: {wrapped}; first three columns: {cols}; derived from the product: {through}",
-                      M.where(GS, setc[0]))
+        rep.violation(rid, "post-processing of transformed positions", "set_scaled_positions does not receive the wrapped transformed positions", M.where(GS, setc[0]))
     recv = setc[0].func.value
     rdef = env.get(recv.id) if isinstance(recv, ast.Name) else None
     if rdef is not None and norm(rdef) == f"{M.params(GS)[2]}.copy()":
